@@ -104,14 +104,17 @@ SeededPats(n, cs) == {((Hash(n, cs) + j) % Len(PatTable)) + 1 : j \in 0..(PatsPe
 Row(n, items, p) == [name |-> n, items |-> items, pat |-> p]
 \* (stated as nested quantifiers rather than as one big set: TLC enumerates a
 \* union of set comprehensions in quadratic time)
+\* "<<stop>> is never dispatched": the property speaks of the bare statement, so the
+\* name stop is enumerated without arguments only (what <<stop now>> means is left open)
+NamesWithArgs == {n \in Names : NameTable[n].n # Stop}
 IsRow(r) ==
   \/ \E n \in Names, p \in Pats : r = Row(n, <<>>, p)
-  \/ \E n \in Names, c \in Classes, p \in Pats : \E k \in 1..Len(ClassTable[c]) :
+  \/ \E n \in NamesWithArgs, c \in Classes, p \in Pats : \E k \in 1..Len(ClassTable[c]) :
         r = Row(n, <<ClassTable[c][k]>>, p)
-  \/ \E n \in Names, c1 \in Classes, c2 \in Classes : \E p \in SeededPats(n, <<c1, c2>>) :
+  \/ \E n \in NamesWithArgs, c1 \in Classes, c2 \in Classes : \E p \in SeededPats(n, <<c1, c2>>) :
         r = Row(n, SeededItems(n, <<c1, c2>>), p)
   \/ /\ MaxArgs >= 3
-     /\ \E n \in Names, c1 \in Classes, c2 \in Classes, c3 \in Classes : \E p \in SeededPats(n, <<c1, c2, c3>>) :
+     /\ \E n \in NamesWithArgs, c1 \in Classes, c2 \in Classes, c3 \in Classes : \E p \in SeededPats(n, <<c1, c2, c3>>) :
            r = Row(n, SeededItems(n, <<c1, c2, c3>>), p)
 
 \* ---------------------------------------------------------------- machine
